@@ -1541,7 +1541,7 @@ def _drain(c, limit=6, wait=1.5):
 
 
 HOSTILE_VARIANTS = ('no_handshake', 'ignore_failure', 'skip_first', 'welcome_first',
-                    'echo_challenge')
+                    'echo_challenge', 'empty_answer', 'short_answer')
 
 
 def hostile(address, variant, request):
@@ -1576,6 +1576,16 @@ def hostile(address, variant, request):
             c.send_bytes(connection.WELCOME)
             c.send(request)
         elif variant == 'welcome_first':
+            c.send_bytes(connection.WELCOME)
+            c.send(request)
+        elif variant in ('empty_answer', 'short_answer'):
+            # an answer of the wrong length, then the rest of the handshake as
+            # if it had been accepted
+            rb()
+            c.send_bytes(b'' if variant == 'empty_answer' else os.urandom(1))
+            rb()
+            c.send_bytes(connection.CHALLENGE + os.urandom(20))
+            rb()
             c.send_bytes(connection.WELCOME)
             c.send(request)
         elif variant == 'echo_challenge':
